@@ -444,8 +444,16 @@ func runCheck(opts checkOpts) (int, map[string]any) {
 			effLines = append(effLines, fmt.Sprintf("VIOLATION property=%s replay=%s obligation=%s no-failing-input-found", opts.prop, rp, er.name))
 		}
 	}
+	vioFuncs := map[string]bool{}
+	for _, r := range all {
+		if r.Status == "violation" {
+			vioFuncs[r.O.Func] = true
+		}
+	}
 	for fn, n := range pathTotal {
-		if n > 0 && pathDead[fn] == n {
+		// a function that fails an obligation on every path (an unconditional panic) has no
+		// reachable return either: that is the violation's consequence, reported as the violation
+		if n > 0 && pathDead[fn] == n && !vioFuncs[fn] {
 			coverFails = append(coverFails, fn+": no return site is reachable under the contract")
 		}
 	}
